@@ -3,6 +3,7 @@ package checks
 import (
 	"fmt"
 	"sort"
+	"time"
 
 	"verif/core"
 	"verif/drive"
@@ -50,7 +51,12 @@ func runC01(c *core.Ctx) {
 	}
 	d := descOf(p, argv)
 	c.Journal(d)
+	t0 := time.Now()
 	obs := drive.Run(drive.Single(p), argv)
+	if c.Replay {
+		fmt.Printf("library: %v accepted=%v err=%v\n", time.Since(t0), obs.Accepted(), obs.Err)
+	}
+	c.LibDone()
 	c.Eval()
 	c.Max("argv_len", len(argv))
 	if obs.SpecErr != nil {
@@ -61,7 +67,11 @@ func runC01(c *core.Ctx) {
 		c.Violation(fmt.Sprintf("undocumented outcome: panic=%v exit=%v ran=%d err=%v", obs.Pan, obs.Exit, obs.Ran, obs.Err), nil, nil)
 		return
 	}
+	t0 = time.Now()
 	v, gd := decideBoth(p, nfa, nfaR, argv)
+	if c.Replay {
+		fmt.Printf("reference: %v accept=%v unclaimed=%v steps=%d\n", time.Since(t0), v.Accept, v.Unclaimed, v.Steps)
+	}
 	if gd {
 		c.Inc("unclaimed_group_readings_differ")
 	}
